@@ -150,15 +150,20 @@ Run(sc, k) == IF k = 0 THEN PreState(sc) ELSE Apply(Run(sc, k - 1), sc.ops, k)
 
 Out(ok, reconf, vd, vm, ve, why) == [ok |-> ok, reconf |-> reconf, vd |-> vd, vm |-> vm, ve |-> ve, why |-> why]
 
+\* does the follow-up take a list of machine files from the core data or from cmd_line.txt
+ReadsMachineFiles(fs) ==
+    LET c == fs[Core]
+        l == fs[Cmdl]
+    IN \/ c.st = "full"
+       \/ (c.st = "absent" /\ l.st = "full" /\ FirstRunReadsCmdline)
+       \/ (c.st \notin {"full", "absent"} /\ l.st = "full")
+
 RecoverOutcome(fs) ==
     LET c == fs[Core]
         l == fs[Cmdl]
         reconf == c.st # "absent"
         recorded == IF l.st = "full" THEN l.ver ELSE "default"
-        \* does the follow-up take the list of machine files from somewhere
-        reads == \/ c.st = "full"
-                 \/ (c.st = "absent" /\ l.st = "full" /\ FirstRunReadsCmdline)
-                 \/ (c.st \notin {"full", "absent"} /\ l.st = "full")
+        reads == ReadsMachineFiles(fs)
         piped == MFile \in DOMAIN fs
         gone  == piped /\ reads /\ fs[MFile].st = "absent"
         M(v)  == IF piped /\ reads /\ Torn(fs[MFile]) THEN "default" ELSE v
